@@ -20,7 +20,7 @@ RULE = ("ttl {1,1.5,4,3600,none} x delivery instant {E-1s,E-1us,E,E+1us,E+1s} x 
 ASSUMPTIONS = ["Redis and RabbitMQ are wire-level fakes", "virtual time; exact instants only at zero wire latency (redis polls priorities with 0.1 s sleeps, so its instants are approximate; the oracle uses the observed instants)",
                "with wire latency l the execution allowance after E is 2l + 0.35 s"]
 EVAL_COUNTER = "messages_judged"
-REQUIRED = ["messages_judged", "executed_live", "dead_lettered_expired", "dead_retrieved", "boundary_exact", "kind_retry_cross", "kind_retry_late", "kind_resched", "priority_high", "priority_low", "timezone_offset_runs", "arrivals_at_a_waiting_consumer", "mixed_queue_messages", "revived_messages_judged", "expired_next_to_a_running_twin"]
+REQUIRED = ["messages_judged", "executed_live", "dead_lettered_expired", "dead_retrieved", "boundary_exact", "kind_retry_cross", "kind_retry_late", "kind_resched", "priority_high", "priority_low", "timezone_offset_runs", "arrivals_at_a_waiting_consumer", "mixed_queue_messages", "revived_messages_judged", "expired_next_to_a_running_twin", "messages_stamped_in_another_time_zone"]
 CASE_TIMEOUT = 120
 
 TTLS = [1.0, 1.5, 4.0, 3600.0, 90000.0, 172800.0, None]
@@ -336,8 +336,21 @@ async def mixed_scenario(loop, case, out, stats, fps):
         loop.jump(3600.0 + 1.37)
         kinds = {}
         for i in range(case["n"]):
-            k = rnd.choice(["expired", "alive", "none"]) if i else "expired"  # (an expired one always leads)
+            k = rnd.choice(["expired", "alive", "none", "expired_aware", "alive_aware"]) if i else "expired"  # (an expired one always leads)
             id_ = f"x{i:02d}"
+            if k.endswith("_aware"):
+                # a producer that stamps its messages with timezone-aware times, in a zone hours away from this machine's
+                from datetime import timezone as _tz
+
+                zone = _tz(timedelta(hours=rnd.choice([6, -6, 11, -9]) + (datetime.now().astimezone().utcoffset() or timedelta(0)).total_seconds() / 3600))
+                stats["messages_stamped_in_another_time_zone"] += 1
+                aware_now = datetime.now(tz=zone)
+                k = k[:-6]
+                kinds[id_] = k
+                job = w.job("act", id_, {"do": "ok", "d": 0.01}, ttl=timedelta(seconds=2 if k == "expired" else 3600), timeout=timedelta(seconds=30), store_result=False)
+                job.timestamp = aware_now - timedelta(seconds=rnd.choice([3, 600, 3000])) if k == "expired" else aware_now
+                await job.enqueue()
+                continue
             kinds[id_] = k
             job = w.job("act", id_, {"do": "ok", "d": 0.01}, ttl=None if k == "none" else timedelta(seconds=2 if k == "expired" else 86400), timeout=timedelta(seconds=30), store_result=False)
             if k == "expired":
@@ -359,8 +372,10 @@ async def mixed_scenario(loop, case, out, stats, fps):
                     out.append(V("expired_executed", broker, "mixed", f"{id_} (expired before it was enqueued) was executed; queue {list(kinds.values())}"))
                 elif snap.get(id_) == ["dead"]:
                     stats["dead_lettered_expired"] += 1
-                elif snap.get(id_) != ["waiting"]:
-                    # (still waiting = the worker was stopped before it came to look at it: Redis weeds out one per polling round)
+                elif snap.get(id_) != ["waiting"] and not (broker == "redis" and snap.get(id_) == ["held"]):
+                    # (still waiting = the worker was stopped before it came to look at it: Redis weeds out one per polling round;
+                    # in flight on Redis = fetched ahead by the worker's consumer when the stop came - what becomes of such a
+                    # message is C01's / C03's subject, it was not executed)
                     out.append(V("expired_not_dead_lettered", broker, "mixed", f"{id_} (expired) is at {snap.get(id_)}; queue {list(kinds.values())}"))
             else:
                 if id_ not in started:
